@@ -12,7 +12,8 @@
 use qv::{gallina as g, Args, Rng, Run};
 use quil_rs::expression::{Expression, InfixOperator};
 use quil_rs::instruction::{
-    CalibrationDefinition, CalibrationIdentifier, Gate, Instruction, Qubit,
+    CalibrationDefinition, CalibrationIdentifier, Gate, Instruction, MeasureCalibrationDefinition,
+    MeasureCalibrationIdentifier, Measurement, Qubit,
 };
 use quil_rs::program::ProgramError;
 use quil_rs::Program;
@@ -23,6 +24,10 @@ use std::time::{Duration, Instant};
 const KNOWN: &str = "growing-parameter-recursion";
 const SMALL_STACK_KB: usize = 128;
 const GNAMES: [&str; 4] = ["RX", "X", "Y", "FOO"];
+/// Name index 4 stands for an effect-only measurement `MEASURE q` / `DEFCAL MEASURE q:` (encoded in
+/// the model as one more gate name whose parameter is always the literal 0: measurement calibrations
+/// are matched by qubit only, exact before variable, later definition first - the gate rule).
+const MEAS: usize = 4;
 
 #[derive(Clone, PartialEq, Eq, Debug)]
 struct P {
@@ -75,6 +80,7 @@ fn q_real(q: Q) -> Qubit {
 fn i_real(i: &I) -> Instruction {
     match i {
         I::Nop => Instruction::Nop(),
+        I::Gate(n, _, q) if *n == MEAS => Instruction::Measurement(Measurement::new(None, q_real(*q), None)),
         I::Gate(n, p, q) => Instruction::Gate(Gate {
             name: GNAMES[*n].to_string(),
             parameters: vec![p_expr(p)],
@@ -86,6 +92,13 @@ fn i_real(i: &I) -> Instruction {
 fn program(c: &Case) -> Program {
     let mut prog = Program::new();
     for cal in &c.cals {
+        if cal.name == MEAS {
+            prog.add_instruction(Instruction::MeasureCalibrationDefinition(MeasureCalibrationDefinition {
+                identifier: MeasureCalibrationIdentifier::new(None, q_real(cal.q), None),
+                instructions: cal.body.iter().map(i_real).collect(),
+            }));
+            continue;
+        }
         let ident = CalibrationIdentifier::new(
             GNAMES[cal.name].to_string(),
             vec![],
@@ -129,6 +142,14 @@ fn p_abs(e: &Expression) -> Option<P> {
 fn i_abs(i: &Instruction) -> Option<I> {
     match i {
         Instruction::Nop() => Some(I::Nop),
+        Instruction::Measurement(m) if m.name.is_none() && m.target.is_none() => {
+            let q = match &m.qubit {
+                Qubit::Fixed(k) => Q::F(*k),
+                Qubit::Variable(v) if v == "q" => Q::V,
+                _ => return None,
+            };
+            Some(I::Gate(MEAS, P { plus: 0, base: Some(0) }, q))
+        }
         Instruction::Gate(gate) if gate.modifiers.is_empty() && gate.parameters.len() == 1 && gate.qubits.len() == 1 => {
             let n = GNAMES.iter().position(|x| *x == gate.name)?;
             let q = match &gate.qubits[0] {
@@ -176,12 +197,21 @@ fn q_text(q: Q) -> String {
 fn i_text(i: &I) -> String {
     match i {
         I::Nop => "NOP".into(),
+        I::Gate(n, _, q) if *n == MEAS => format!("MEASURE {}", q_text(*q)),
         I::Gate(n, p, q) => format!("{}({}) {}", GNAMES[*n], p_text(p), q_text(*q)),
     }
 }
 fn case_text(c: &Case) -> String {
     let mut s = String::new();
     for cal in &c.cals {
+        if cal.name == MEAS {
+            s.push_str(&format!("DEFCAL MEASURE {}:", q_text(cal.q)));
+            for i in &cal.body {
+                s.push_str(&format!("\n    {}", i_text(i)));
+            }
+            s.push('\n');
+            continue;
+        }
         s.push_str(&format!(
             "DEFCAL {}({}) {}:",
             GNAMES[cal.name],
@@ -486,7 +516,11 @@ fn do_case(run: &mut Run, ctl: &mut Ctl, c: &Case, tag: &str, pre: Option<ChildR
     let desc = format!("[{tag}] {}", text.trim_end().replace('\n', " ; "));
     let grows = growing(c);
     run.count(if grows { "class growing" } else if non_growing(c) { "class non-growing" } else { "class neither (uncalibrated growing name)" });
-    if grows {
+    let has_meas = c.cals.iter().any(|k| k.name == MEAS);
+    if has_meas {
+        run.count("case with measurement calibrations");
+    }
+    if grows || has_meas {
         ctl.children += 1;
         match pre.unwrap_or_else(|| run_child(c, true, ctl.small_timeout)) {
             ChildResult::Exited(0) | ChildResult::Exited(3) => {
@@ -494,6 +528,18 @@ fn do_case(run: &mut Run, ctl: &mut Ctl, c: &Case, tag: &str, pre: Option<ChildR
             }
             ChildResult::Exited(code) => {
                 run.process_failure(&format!("child exited with unexpected status {code}"), &text, None);
+                return;
+            }
+            ChildResult::Crashed(how) if !grows => {
+                run.process_failure(
+                    &format!("expand_calibrations neither returns a program nor an error: process {how} ({SMALL_STACK_KB} KiB stack thread)"),
+                    &text,
+                    None,
+                );
+                return;
+            }
+            ChildResult::Timeout if !grows => {
+                run.process_failure("expand_calibrations does not return within the timeout", &text, None);
                 return;
             }
             ChildResult::Crashed(how) => {
@@ -571,6 +617,58 @@ Definition K n p q b := {| c_name := n; c_ppat := p; c_q := q; c_body := b |}.";
             &case_text(&witness),
             Some(KNOWN),
         ),
+    }
+
+    // ---- 0b. measurement calibrations: cycles through MEASURE only, through a gate, and none ----
+    // (every one of these runs in a child process first: a missed cycle overflows the stack)
+    {
+        let m = |q: Q| I::Gate(MEAS, lit(0), q);
+        let xg = |q: Q| I::Gate(1, lit(0), q);
+        let pool = [I::Nop, m(Q::F(0)), m(Q::F(1)), m(Q::V), xg(Q::F(0)), xg(Q::V)];
+        let mut bodies: Vec<Vec<I>> = pool.iter().map(|i| vec![i.clone()]).collect();
+        for a in &pool {
+            for b in &pool {
+                bodies.push(vec![a.clone(), b.clone()]);
+            }
+        }
+        let progs = [vec![m(Q::F(0))], vec![m(Q::F(1)), m(Q::F(0))], vec![xg(Q::F(0)), m(Q::F(1))]];
+        let mut n = 0usize;
+        for (bi, body) in bodies.iter().enumerate() {
+            for cq in [Q::F(0), Q::V] {
+                // a variable qubit in the body needs a variable qubit in the identifier
+                if cq != Q::V && body.iter().any(|i| matches!(i, I::Gate(_, _, Q::V))) {
+                    continue;
+                }
+                for (pi, prog) in progs.iter().enumerate() {
+                    n += 1;
+                    if !thorough && bi >= pool.len() && n % 3 != 0 {
+                        continue;
+                    }
+                    // alone, and together with a gate calibration X q -> MEASURE q (cycle through a gate)
+                    let c1 = Case { cals: vec![Cal { name: MEAS, ppat: Some(0), q: cq, body: body.clone() }], prog: prog.clone() };
+                    do_case(&mut run, &mut ctl, &c1, "measure-cal", None);
+                    if pi != 1 {
+                        let c2 = Case {
+                            cals: vec![
+                                Cal { name: MEAS, ppat: Some(0), q: cq, body: body.clone() },
+                                Cal { name: 1, ppat: Some(0), q: Q::V, body: vec![m(Q::V)] },
+                            ],
+                            prog: prog.clone(),
+                        };
+                        do_case(&mut run, &mut ctl, &c2, "measure-cal+gate-cal", None);
+                    }
+                }
+            }
+        }
+        // two measurement calibrations calling each other on different qubits
+        let c3 = Case {
+            cals: vec![
+                Cal { name: MEAS, ppat: Some(0), q: Q::F(0), body: vec![m(Q::F(1))] },
+                Cal { name: MEAS, ppat: Some(0), q: Q::F(1), body: vec![I::Nop, m(Q::F(0))] },
+            ],
+            prog: vec![m(Q::F(0))],
+        };
+        do_case(&mut run, &mut ctl, &c3, "measure-cal-mutual", None);
     }
 
     // ---- 1. corpus ----------------------------------------------------------------------------
